@@ -56,14 +56,14 @@ var deny = map[string][]string{
 	"crypto/tls": {"Dial", "DialWithDialer", "Listen", "Dialer"},
 	"net/http": {"ListenAndServe", "ListenAndServeTLS", "Get", "Post", "PostForm", "Head", "DefaultClient",
 		"DefaultTransport", "Client", "Transport"},
-	"sync":                 {"Mutex", "RWMutex"},
-	"github.com/miekg/dns": {"ClientConfigFromFile", "ListenAndServe", "Exchange", "ExchangeContext"},
+	"sync":                         {"Mutex", "RWMutex"},
+	"github.com/miekg/dns":         {"ClientConfigFromFile", "ListenAndServe", "Exchange", "ExchangeContext"},
 	"github.com/gorilla/websocket": {"DefaultDialer"},
 }
 
 type stats struct {
-	files, changed                                  int
-	mutex, netCalls, tlsCalls, wsDialers, dnsServe, resolv int
+	files, changed                                                    int
+	mutex, netCalls, tlsCalls, wsDialers, dnsServe, resolv, fileReads int
 }
 
 var st stats
@@ -136,8 +136,8 @@ func main() {
 		}
 		os.Exit(2)
 	}
-	fmt.Printf("simify: files=%d changed=%d mutex=%d net=%d tls=%d wsdialer=%d dnsserve=%d resolvconf=%d\n",
-		st.files, st.changed, st.mutex, st.netCalls, st.tlsCalls, st.wsDialers, st.dnsServe, st.resolv)
+	fmt.Printf("simify: files=%d changed=%d mutex=%d net=%d tls=%d wsdialer=%d dnsserve=%d resolvconf=%d filereads=%d\n",
+		st.files, st.changed, st.mutex, st.netCalls, st.tlsCalls, st.wsDialers, st.dnsServe, st.resolv, st.fileReads)
 }
 
 func die(format string, args ...interface{}) {
@@ -194,6 +194,7 @@ func rewriteFile(path string) {
 	simrtIdent := func() *ast.Ident { return ast.NewIdent("simrt") }
 
 	netN, tlsN, syncN, wsN, dnsN := imps["net"], imps["crypto/tls"], imps["sync"], imps["github.com/gorilla/websocket"], imps["github.com/miekg/dns"]
+	ioutilN, osN := imps["io/ioutil"], imps["os"]
 	_, hasHTTP := imps["net/http"]
 
 	ast.Inspect(f, func(n ast.Node) bool {
@@ -222,6 +223,11 @@ func rewriteFile(path string) {
 					st.mutex++
 					changed = true
 				}
+			case (ioutilN != "" && id.Name == ioutilN || osN != "" && id.Name == osN) && x.Sel.Name == "ReadFile":
+				// disk reads take (simulated) time: a scheduling point for everything else
+				x.X, x.Sel = simrtIdent(), ast.NewIdent("ReadFile")
+				st.fileReads++
+				changed = true
 			case dnsN != "" && id.Name == dnsN:
 				if x.Sel.Name == "ClientConfigFromFile" {
 					x.X, x.Sel = simrtIdent(), ast.NewIdent("ResolvConf")
@@ -309,7 +315,7 @@ func rewriteFile(path string) {
 		for _, sp := range gd.Specs {
 			is := sp.(*ast.ImportSpec)
 			p, _ := strconv.Unquote(is.Path.Value)
-			if (p == "sync" || p == "net" || p == "crypto/tls" || p == "github.com/miekg/dns") && !used[imps[p]] {
+			if (p == "sync" || p == "net" || p == "crypto/tls" || p == "github.com/miekg/dns" || p == "io/ioutil" || p == "os") && !used[imps[p]] {
 				continue
 			}
 			keep = append(keep, sp)
